@@ -312,7 +312,7 @@ fn run_c05(ctx: &mut Ctx) {
     }
 }
 
-const SPACE: &str = "Execution space: every `//! > cairo_code` snippet of tests/e2e_test_data (382) plus 24 hand-written programs (loops, recursion, locals across calls and merges, dicts, arrays, enums, early return, panics, closures, u256, signed, hashes), every function `test::*` whose user parameters are scalars (u8..u128, i8..i128, felt252, bool, u256; <=3 params), the full cross product of the boundary domains B(T) (quick: 4 values per parameter, <=64 vectors; thorough: 7-10 values, <=400 vectors). Parameters of structured types are generated too (arrays incl. two of length 6, structs, snapshots, NonZero, BoundedInt, bytes31, addresses) and functions taking boxes/options/results/nullables/dicts/user enums are reached through generated Cairo wrappers with scalar parameters. C02/C04/C17 additionally execute the C14 instantiation lattice: one Sierra function per accepted (libfunc, generic arguments) instantiation over edge types (~920 in quick) restricted to the allowed-libfuncs lists (C02: audited; C04/C17: all), on the same boundary inputs - no front end involved; instantiations taking boxes, nullables or enums are also executed through variants that build those values inside the function (into_box, nullable_from_box / null, enum_init of each of the first 3 variants) from a value the runner can pass";
+const SPACE: &str = "Execution space: every `//! > cairo_code` snippet of tests/e2e_test_data (382) plus 24 hand-written programs (loops, recursion, locals across calls and merges, dicts, arrays, enums, early return, panics, closures, u256, signed, hashes), every function `test::*` whose user parameters are scalars (u8..u128, i8..i128, felt252, bool, u256; <=3 params), the full cross product of the boundary domains B(T) (quick: 4 values per parameter, <=64 vectors; thorough: 7-10 values, <=400 vectors); functions of two parameters of one integer type additionally get up to 16 result-directed pairs (a = q*b + r with q, r on boundaries; a +- b, a * b next to MIN / MAX). Parameters of structured types are generated too (arrays incl. two of length 6, structs, snapshots, NonZero, BoundedInt, bytes31, addresses) and functions taking boxes/options/results/nullables/dicts/user enums are reached through generated Cairo wrappers with scalar parameters. C02/C04/C17 additionally execute the C14 instantiation lattice: one Sierra function per accepted (libfunc, generic arguments) instantiation over edge types (~920 in quick) restricted to the allowed-libfuncs lists (C02: audited; C04/C17: all), on the same boundary inputs - no front end involved; instantiations taking boxes, nullables or enums are also executed through variants that build those values inside the function (into_box, nullable_from_box / null, enum_init of each of the first 3 variants) from a value the runner can pass";
 
 pub static C02: CheckDef = CheckDef {
     id: "C02",
